@@ -81,6 +81,53 @@ impl ForestEngine {
     }
 }
 
+/// C04 run shape "slot churn": remove / allocate on one arena slot far past indextree's stamp
+/// range while stale handles of sampled generations are re-probed — the ABA case of this store.
+pub fn slot_churn(cycles: u32, stats: &mut Stats) -> Option<Violation> {
+    let mut x = xot::Xot::new();
+    let mut stale: Vec<(u32, xot::Node)> = vec![];
+    let keep = |i: u32| i < 4 || i.is_power_of_two() || (32_760..=32_775).contains(&i) || i % 8191 == 0;
+    let r = crate::driver::real_call(|| {
+        for i in 0..cycles {
+            let h = x.new_text(&i.to_string());
+            if x.is_removed(h) || x.text_str(h) != Some(i.to_string().as_str()) {
+                return Some(Violation::new("C04", "handle-value", format!("slot churn: node allocated in generation {} does not read back", i)));
+            }
+            for (g, s) in &stale {
+                if *s == h || !x.is_removed(*s) {
+                    return Some(Violation::new(
+                        "C04",
+                        "resurrected-handle",
+                        format!(
+                            "slot churn: the handle of the node removed in generation {} {} the node allocated in generation {} (slot generation limit: stamp {})",
+                            g,
+                            if *s == h { "is equal to the handle of" } else { "is reported live again after" },
+                            i,
+                            crate::world::stamp_of(*s)
+                        ),
+                    ));
+                }
+            }
+            if x.remove(h).is_err() {
+                return Some(Violation::new("C04", "handle-value", "slot churn: remove failed".into()));
+            }
+            if !x.is_removed(h) {
+                return Some(Violation::new("C04", "resurrected-handle", format!("slot churn: is_removed false right after remove in generation {}", i)));
+            }
+            if keep(i) {
+                stale.push((i, h));
+            }
+        }
+        None
+    });
+    stats.add("probe/slot_churn_generations", cycles as u64);
+    stats.add("fault/stale_handles_probed_in_slot_churn", stale.len() as u64 * cycles as u64);
+    match r {
+        Ok(v) => v,
+        Err(_) => Some(Violation::new("C04", "handle-value", "slot churn panicked".into())),
+    }
+}
+
 fn to_failure(f: Failure) -> EngineFailure {
     EngineFailure { violation: f.violation, replay: serde_json::to_value(&f.replay).unwrap() }
 }
@@ -103,6 +150,9 @@ impl PropEngine for ForestEngine {
         forest::run_one(&self.cfg, run_index, run_seed, known, stats).map(to_failure)
     }
     fn minimise(&self, f: EngineFailure, known: &KnownFile) -> EngineFailure {
+        if f.replay.get("slot_churn").is_some() {
+            return f;
+        }
         let r: ForestReplay = serde_json::from_value(f.replay.clone()).unwrap();
         let fl = Failure { violation: f.violation.clone(), replay: r };
         let min = forest::minimise(&self.cfg, &fl, known);
@@ -112,6 +162,13 @@ impl PropEngine for ForestEngine {
         EngineFailure { violation: v, replay: serde_json::to_value(&min).unwrap() }
     }
     fn replay(&self, replay: &Value, known: &KnownFile, stats: &mut Stats) -> Option<Violation> {
+        if let Some(c) = replay.get("slot_churn").and_then(|c| c.as_u64()) {
+            let v = slot_churn(c as u32, stats)?;
+            if known.matches(v.property, v.class, "slot-churn", &v.msg).is_some() {
+                return None;
+            }
+            return Some(v);
+        }
         let r: ForestReplay = match serde_json::from_value(replay.clone()) {
             Ok(r) => r,
             Err(e) => {
@@ -123,6 +180,18 @@ impl PropEngine for ForestEngine {
     }
     fn rule(&self) -> String {
         self.rule.to_string()
+    }
+    fn fixed_part(&self, thorough: bool, known: &KnownFile, stats: &mut Stats) -> Option<EngineFailure> {
+        if self.cfg.property != "C04" {
+            return None;
+        }
+        let cycles = if thorough { 70_000 } else { 33_000 };
+        let v = slot_churn(cycles, stats)?;
+        if let Some(f) = known.matches(v.property, v.class, "slot-churn", &v.msg) {
+            stats.inc(&format!("known_finding_hits/{}", f.id));
+            return None;
+        }
+        Some(EngineFailure { violation: v, replay: serde_json::json!({"slot_churn": cycles}) })
     }
     fn assumptions(&self) -> Vec<String> {
         vec![
